@@ -161,9 +161,34 @@ class Metadata(Facet):
                 judge(p, ev.kind)
             if ev.kind == "map":
                 judge(ev.extra["phenotype"], "map")
+            if rep == "tree" and ev.kind in ("mutate", "crossover"):
+                # the parents are programs the library created too: an operator must not leave them
+                # with metadata that no longer matches their structure
+                for i in ev.inputs:
+                    judge(w.pool[i], "parent-after-" + ev.kind)
 
         rec.sample({"spec": spec_str(case["spec"]), "rep": rep, "decider": case["decider"], "ops": case["ops"]})
         w.run(obs)
 
 
-FACETS = [Metadata()]
+class MetadataConcreteStart(Metadata):
+    """Tree representation with a recursive production as start symbol (crossover then reuses inner
+    subtrees of the other parent instead of synthesising fresh material)."""
+
+    name = "node_metadata_tree_concrete_start"
+    reps = ("tree",)
+    flags = Flags(dependent=False, user_mh=False, max_concrete=6, min_extra_concrete=2, tuples=True, unions=True, concrete_start="always", bare_lists=False, max_list_size=2)
+
+    def budget(self, tier):
+        return (120, 4) if tier == "quick" else (400, 16)
+
+    def strategy(self, tier):
+        from hypothesis import strategies as st
+
+        base = world_cases(self.flags, reps=self.reps, deciders=("maxdepth", "pigrow"), max_ops=1, depth_extras=(1, 2, 3))
+        idx = st.integers(0, 40)
+        xs = st.lists(st.one_of(st.builds(lambda i, j: ["crossover", i, j], idx, idx), st.builds(lambda i: ["mutate", i], idx)), min_size=3, max_size=12)
+        return st.builds(lambda c, x: {**c, "ops": [["create"], ["create"], ["create"]] + x}, base, xs)
+
+
+FACETS = [Metadata(), MetadataConcreteStart()]
